@@ -254,6 +254,33 @@ def run_c19(prop_id, tier, seed, spec, known, t0):
                 e["count"] += v["count"]
             else:
                 byk[v["signature"]] = v
+    # supplementary Miri leg (thorough only): the same workload under the UB / overflow-checking interpreter
+    miri_note = None
+    if tier == "thorough":
+        mout = os.path.join(SHARDS, "C19-miri.json")
+        if os.path.exists(mout):
+            os.remove(mout)
+        menv = env()
+        menv["MIRIFLAGS"] = "-Zmiri-disable-isolation"
+        menv["CARGO_TARGET_DIR"] = os.path.join(ROOT, "target", "miri")
+        cmd = "cd %s && cargo +nightly miri run --offline -- intlog --seed %d --shard 1 --budget 300 2>%s | python3 %s %s" % (
+            os.path.join(ROOT, "harness"), seed, os.path.join(SHARDS, "C19-miri.stderr"), checker, mout)
+        try:
+            mp = subprocess.run(["bash", "-c", "set -o pipefail; " + cmd], env=menv, timeout=1800)
+            if mp.returncode == 0 and os.path.exists(mout):
+                mr = json.load(open(mout))
+                miri_note = {"records_interpreted": mr["records"], "evaluations": mr["evaluations"], "violations": len(mr["violations"]), "result": "no undefined behaviour reported by Miri"}
+                for v in mr["violations"]:
+                    e = byk.get(v["signature"])
+                    if e:
+                        e["count"] += v["count"]
+                    else:
+                        byk[v["signature"]] = v
+            else:
+                err = open(os.path.join(SHARDS, "C19-miri.stderr")).read()[-400:] if os.path.exists(os.path.join(SHARDS, "C19-miri.stderr")) else ""
+                miri_note = {"result": "Miri leg did not complete (harness-level note, not a verdict)", "stderr_tail": err}
+        except subprocess.TimeoutExpired:
+            miri_note = {"result": "Miri leg timed out (harness-level note, not a verdict)"}
     m["violations"] = list(byk.values())
     m["steps"] = records
     m["counters"]["operand-pairs"] = records
@@ -275,7 +302,10 @@ def run_c19(prop_id, tier, seed, spec, known, t0):
     elif not results or records == 0 or boundary == 0:
         rc = 2
     wall = time.time() - t0
-    write_evidence(prop_id, tier, seed, m, spec, len(unlisted), notes, wall, listed_counts, {"exhaustive": True, "operand_pairs": records, "boundary_pairs": boundary})
+    extra_cov = {"exhaustive": True, "operand_pairs": records, "boundary_pairs": boundary}
+    if miri_note:
+        extra_cov["miri"] = miri_note
+    write_evidence(prop_id, tier, seed, m, spec, len(unlisted), notes, wall, listed_counts, extra_cov)
     print("%s property=C19 tier=%s seed=%s operand_pairs=%d boundary_pairs=%d evaluations=%d distinct=%d unlisted_violations=%d wall=%.1fs"
           % ({0: "HELD", 1: "VIOLATED", 2: "INCONCLUSIVE"}[rc], tier, seed, records, boundary, m["evaluations"], len(m["distinct"]), len(unlisted), wall))
     for n in notes:
